@@ -17,6 +17,8 @@ def clause(ex, c, fr, loop_entry=None):
     saved_le = getattr(fr, "loop_entry", None)
     if loop_entry is not None:
         fr.loop_entry = loop_entry
+    prev = getattr(ex, "cur_clause", None)
+    ex.cur_clause = c.label
     try:
         v = ex.ev(c.ast, fr)
         return ex.truth(v)
@@ -25,6 +27,7 @@ def clause(ex, c, fr, loop_entry=None):
     finally:
         fr.spec = was
         fr.loop_entry = saved_le
+        ex.cur_clause = prev
 
 
 def eval_text(ex, text, fr, extra=None):
@@ -76,6 +79,12 @@ def spec_call(ex, e, fr):
             raise Unsupported("at_entry outside a loop invariant")
         (heap, alloc), locs = le
         return with_state(ex, fr, heap, alloc, locs, lambda: ex.ev(e.args[0], fr))
+    if name == "at_head":      # state at the beginning of the current loop iteration
+        lh = getattr(fr, "loop_head", None)
+        if lh is None:
+            raise Unsupported("at_head outside a loop body")
+        (heap, alloc), locs = lh
+        return with_state(ex, fr, heap, alloc, locs, lambda: ex.ev(e.args[0], fr))
     if name == "imp":
         a = ex.truth(ex.ev(e.args[0], fr))
         b = ex.truth(ex.ev(e.args[1], fr))
@@ -91,8 +100,11 @@ def spec_call(ex, e, fr):
         lam = e.args[0]
         if not isinstance(lam, ast.Lambda):
             raise Unsupported("quantifier needs a lambda")
-        types = {kw.arg: kw.value.value for kw in e.keywords if kw.arg not in ("pat",)}
+        types = {kw.arg: kw.value.value for kw in e.keywords if kw.arg not in ("pat", "pats")}
         pats = [kw.value for kw in e.keywords if kw.arg == "pat"]
+        for kw in e.keywords:
+            if kw.arg == "pats":          # alternatives
+                pats.extend(kw.value.elts)
         names = [a.arg for a in lam.args.args]
         saved = dict(fr.bound)
         bvs = []
@@ -124,7 +136,12 @@ def spec_call(ex, e, fr):
             # element type facts become hypotheses of the universally quantified body? no: they
             # are facts, so conjoining them as extra conclusions would be unsound; use them as
             # antecedents (weaker statement when used as a goal; as an assumption they hold).
-            q = z3.ForAll(bvs, body, patterns=patterns) if patterns else z3.ForAll(bvs, body)
+            qid = f"{getattr(ex, 'cur_clause', None) or 'q'}_{next(ex.cnt)}"
+            try:
+                q = z3.ForAll(bvs, body, patterns=patterns, qid=qid) if patterns else z3.ForAll(bvs, body, qid=qid)
+            except z3.Z3Exception:
+                ex.notes.append(f"pattern rejected by z3 in clause {getattr(ex, 'cur_clause', '?')}: {[str(p_)[:80] for p_ in patterns]}")
+                q = z3.ForAll(bvs, body, qid=qid)
         else:
             q = z3.Exists(bvs, body)
         return vbool(q)
@@ -181,17 +198,66 @@ def spec_call(ex, e, fr):
     if name == "strlit":
         from .values import vstr
         return vstr(e.args[0].value)
+    if name == "type_id":
+        v = ex.ev(e.args[0], fr)
+        return vint(typeof(v.t))
+    if name == "class_id":
+        return vint(class_id(e.args[0].value))
+    if name == "deme_class_of":
+        from .core import DEME_CLASS_OF
+        return vint(DEME_CLASS_OF(ex.coerce(ex.ev(e.args[0], fr), "int").t))
+    if name == "id_depth":
+        return vint(smt.id_depth(ex.ev(e.args[0], fr).t))
+    if name == "str_of_int":
+        return Val(Ty("str"), smt.STR.SInt(ex.coerce(ex.ev(e.args[0], fr), "int").t))
+    if name == "strcat":
+        a, b = ex.ev(e.args[0], fr), ex.ev(e.args[1], fr)
+        return Val(Ty("str"), smt.STR.SCat(a.t, b.t))
+    if name == "str_is_int":
+        return vbool(smt.STR.is_SInt(ex.ev(e.args[0], fr).t))
+    if name == "str_is_cat":
+        return vbool(smt.STR.is_SCat(ex.ev(e.args[0], fr).t))
+    if name == "str_int":
+        return vint(smt.STR.sint(ex.ev(e.args[0], fr).t))
+    if name == "str_head":
+        return Val(Ty("str"), smt.STR.shead(ex.ev(e.args[0], fr).t))
+    if name == "str_tail":
+        return Val(Ty("str"), smt.STR.stail(ex.ev(e.args[0], fr).t))
     if name in spec.MACROS:
         params, body, _ = spec.MACROS[name]
         args = [ex.ev(a, fr) for a in e.args]
         if len(args) != len(params):
             raise Unsupported(f"macro {name}: arity")
+        if name in spec.OPAQUE and not getattr(ex, "_revealing", False):
+            op = spec.OPAQUE[name]
+            terms = [a.t for a in args]
+            if op["stateful"]:
+                terms = [ex.stamp()] + terms
+            psym = z3.Function("P_" + name, *[t.sort() for t in terms], BOOL)
+            app = psym(*terms)
+            reveal = name in getattr(ex, "reveal", ())
+            if reveal and not any(_mentions(t, [b.t for b in fr.bound.values()]) for t in terms if fr.bound):
+                done = ex.__dict__.setdefault("_revealed", {})
+                if app.get_id() not in done:
+                    done[app.get_id()] = app
+                    ex._revealing = True
+                    try:
+                        nfr0 = Frame(fr.fi, dict(zip(params, args)), fr.self_val, cls=fr.cls, contract=fr.contract)
+                        nfr0.spec = True
+                        nfr0.depth = fr.depth + 1
+                        mark = len(ex.pc)
+                        d = ex.truth(ex.ev(body, nfr0))
+                    finally:
+                        ex._revealing = False
+                    ex.pc.append(app == d)
+            return vbool(app)
         nfr = Frame(fr.fi, dict(zip(params, args)), fr.self_val, cls=fr.cls, contract=fr.contract)
         nfr.spec = True
         nfr.old = fr.old
         nfr.bound = dict(fr.bound)
         nfr.result = fr.result
         nfr.loop_entry = getattr(fr, "loop_entry", None)
+        nfr.loop_head = getattr(fr, "loop_head", None)
         nfr.depth = fr.depth + 1
         if nfr.depth > 40:
             raise Unsupported(f"macro recursion at {name}")
@@ -329,6 +395,7 @@ def havoc(ex, fr, modifies, tag):
         may = z3.Or([c(o) for c in cs] + [z3.Not(old_alloc[o])])
         ex.assume(z3.ForAll([o], z3.Implies(z3.Not(may), nm[o] == m[o]), patterns=[nm[o]]))
         ex.heap[key] = nm
+    ex.good_heap()
 
 
 def frame_obligations(ex, fr, con, heap0, alloc0, loc):
